@@ -51,7 +51,8 @@ SIGNED = [-3.0, -2.0, -1.0, -0.0, 0.0, 1.0, 2.0]
 TENTHS = [0.1, 0.2, 0.30000000000000004, 0.3, 0.4, 0.5, 0.7]
 ADJ = [1.0, math.nextafter(1.0, 2.0), math.nextafter(1.0, 0.0), 2.0, math.nextafter(2.0, 3.0), 1e-9, 1e9, 7.25,
        0.1, math.nextafter(0.1, 1.0), 0.30000000000000004, 0.3]
-GRIDS = [("small", SMALL, 45), ("half", HALF, 20), ("signed", SIGNED, 12), ("tenths", TENTHS, 10), ("adjacent", ADJ, 13)]
+WIDE = [float(k) for k in range(10)]
+GRIDS = [("small", SMALL, 35), ("half", HALF, 15), ("wide", WIDE, 20), ("signed", SIGNED, 10), ("tenths", TENTHS, 8), ("adjacent", ADJ, 12)]
 FGRID = [0.0, -0.0, 0.5, 1.0, 1.0, 2.0, 2.0, math.inf, 1e-9, 3.5, -1.0]
 EPS_CHOICES = [[0.1, 0.1], [0.1, 0.1], [0.1], [0.5], [1.0], [2.0, 0.25], [3], [0.05, 10.0, 1.0], [1e-3], [0.25, 0.5, 1.0, 2.0], [1e6]]
 
@@ -268,6 +269,16 @@ def oracle(spec, res, steps):
     return None
 
 
+def first_raising_prefix(art, spec):
+    """length of the shortest prefix of the history on which the implementation raises (0 if none does)"""
+    for k in range(1, len(spec["ops"]) + 1):
+        try:
+            run_impl(art, dict(spec, ops=spec["ops"][:k]))
+        except Exception:
+            return k
+    return 0
+
+
 def pure_adds(spec):
     out = []
     for op in spec["ops"]:
@@ -464,7 +475,7 @@ def shrink(art, spec, kind):
 def run(ctx):
     art = _artap()
     rng = ctx.rng
-    n_cases = ctx.pick(700, 9000)
+    n_cases = ctx.pick(1500, 9000)
     nmax = ctx.pick(12, 60)
     cases, expected, meta = [], [], []
     st = {"pareto": 0, "epsilon": 0, "adds": 0, "inserted": 0, "rejected": 0, "evict1": 0, "evict2plus": 0,
@@ -499,11 +510,15 @@ def run(ctx):
             objs = make_individuals(art, spec)
             res = resolved(objs)
             steps, calls, problems = run_impl(art, spec, objs)
-        except Exception as e:          # e.g. OverflowError inside math.pow: outside the modelled domain
-            if from_corpus:
-                raise
+        except Exception as e:
+            # the histories are well-formed (finite costs, equal lengths, positive epsilons): an operation that raises
+            # neither inserts nor rejects the solution
             st["impl_exceptions"] += 1
-            ctx.notes.append("implementation raised %r on a generated history (skipped)" % (e,)) if st["impl_exceptions"] <= 3 else None
+            k = first_raising_prefix(art, spec)
+            s = dict(spec, ops=spec["ops"][:k]) if k else spec
+            ctx.oracle_failures.append({"what": "operation %r raised %r instead of inserting or rejecting the solution" % (s["ops"][-1], e),
+                                        "input": jsonable(s), "match": {"kind": "exception", "comparator": spec["comparator"]}})
+            ctx.mismatches.append({"what": "implementation raised %r" % (e,), "correspondence": "c04", "case": jsonable(spec)})
             return
         tapes = ind_tapes(spec, res)
         # every observed pow call must be an entry of the per-individual oracle tapes
@@ -580,7 +595,13 @@ def run(ctx):
             for _ in range(2):
                 perm = list(adds)
                 rng.shuffle(perm)
-                psteps, _, _ = run_impl(art, spec, objs, ops_list=perm)
+                try:
+                    psteps, _, _ = run_impl(art, spec, objs, ops_list=perm)
+                except Exception as e:
+                    st["impl_exceptions"] += 1
+                    ctx.oracle_failures.append({"what": "an operation of the permuted history raised %r instead of inserting or rejecting the solution" % (e,),
+                                                "input": dict(jsonable(spec), ops=perm), "match": {"kind": "exception", "comparator": spec["comparator"]}})
+                    break
                 st["permutations_checked"] += 1
                 got = cost_set(res, psteps[-1][0])
                 if got != final:
